@@ -599,6 +599,19 @@ def r19_any_all(src, log, kind="vec"):
 
 
 
+def find_simple_const(src: str, name: str):
+    """`const NAME: T = <literal or simple expression>;` -> (line, text) or None"""
+    try:
+        a, b = find_item(src, "const", name)
+    except ExtractError:
+        return None
+    text = src[a:b]
+    mm = re.search(r"const\s+%s\s*:\s*([^=]+)=\s*([^;]+);" % re.escape(name), text, re.S)
+    if not mm or "{" in mm.group(2):
+        return None
+    return _line_of(src, a), "pub const %s: %s = %s;" % (name, mm.group(1).strip(), mm.group(2).strip())
+
+
 def find_simple_method(src: str, name: str):
     """a helper `fn name(&self) -> T { EXPR }` (only a self parameter, body = one expression without statements):
     returns EXPR or None"""
@@ -928,7 +941,7 @@ def r7_combinators(src, log):
     raise ExtractError("R7 is applied through r7_apply")
 
 
-def r7_apply(src, log, map_kind="result", path_map_kind="result"):
+def r7_apply(src, log, map_kind="result", path_map_kind="result", map_or_kind="option"):
     changed = True
     guard = 0
     while changed:
@@ -963,12 +976,21 @@ def r7_apply(src, log, map_kind="result", path_map_kind="result"):
                     if len(parts) != 2 or "|" in inner or "(" in inner:
                         continue
                     j = k - 1
-                    while j >= 0 and (toks[s[j]].kind == "ident" or toks[s[j]].text == "."):
-                        j -= 1
+                    while j >= 0:
+                        if toks[s[j]].text == ")":
+                            j = s.index(m[s[j]]) - 1
+                            continue
+                        if toks[s[j]].kind == "ident" or toks[s[j]].text == ".":
+                            j -= 1
+                            continue
+                        break
                     r0 = j + 1
                     recv = src[toks[s[r0]].start:t.start].strip()
-                    src = _replace(src, [(toks[s[r0]].start, toks[c2].end,
-                                          "(match %s { Some(v__) => %s(v__), None => %s })" % (recv, parts[1].strip(), parts[0].strip()))])
+                    if map_or_kind == "result":
+                        rep = "(match %s { Ok(v__) => %s(v__), Err(_) => %s })" % (recv, parts[1].strip(), parts[0].strip())
+                    else:
+                        rep = "(match %s { Some(v__) => %s(v__), None => %s })" % (recv, parts[1].strip(), parts[0].strip())
+                    src = _replace(src, [(toks[s[r0]].start, toks[c2].end, rep)])
                     log["R7"] = log.get("R7", 0) + 1
                     log.setdefault("R7.fired", []).append("map_or")
                     changed = True
@@ -1314,6 +1336,15 @@ def process_template(tpl_path: str, repo: str, variant: dict | None = None) -> U
             else:
                 raise
         i = j + 1
+    # constants pulled in automatically (R20b): placed just before the end of the verus! block
+    if variant.get("extra_consts"):
+        idx = max((ix for ix, gl in enumerate(res.lines) if gl.text.strip().startswith("} // verus!")), default=None)
+        if idx is not None:
+            extra = []
+            for (cfile, cline, ctext) in variant["extra_consts"]:
+                for off, l in enumerate(ctext.split("\n")):
+                    extra.append(GenLine(l, ("src", cfile, cline + off)))
+            res.lines[idx:idx] = extra
     # byte literal table
     out = []
     for gl in res.lines:
@@ -1441,7 +1472,7 @@ def _gen_function(kv, sections, repo, res: UnitResult, variant) -> list:
         body = r20_inline(body, log, variant["inline"])
     for r in rules:
         if r == "R7":
-            body = r7_apply(body, log, kv.get("r7map", "result"), kv.get("r7pathmap", "result"))
+            body = r7_apply(body, log, kv.get("r7map", "result"), kv.get("r7pathmap", "result"), kv.get("r7mapor", "option"))
         elif r == "R11":
             body = r11_bytelits(body, log, res.bytelits)
         elif r in ("R13", "R16"):
